@@ -19,6 +19,8 @@ func checkC17(p *Program, tier string) *Result {
 	ruleLoop(p, r, "acf")
 	r.floor("R-LOOP", 5)
 	ruleDeadlineWhoMayCall(p, r)
+	ruleNoBlock(p, r)
+	r.floor("R-NOBLOCK", 2)
 	r.Assumptions = append(r.Assumptions, "that Serve does return needs the armed deadlines to fire (runtime/OS timers) and handlers to terminate: liveness is not decided")
 	r.Trusted = append(r.Trusted, "sync.WaitGroup, net.Conn deadlines, context cancellation")
 	return r
@@ -71,6 +73,12 @@ func checkC20(p *Program, tier string) *Result {
 	r.Explanation = "R-PAIR(b): every prometheus.Gauge of the library is enumerated with all its modification sites in the module. Only Inc/Dec are allowed. Bracket gauges: Inc and Dec in one function with Dec on every path from Inc to return and never without it, or one unconditional Inc/Dec in the WaitGroup Add/Done wrappers (paired per goroutine by R-PAIR a). Population gauge (active sessions): every insertion into the session table has exactly one unconditional Inc in the inserting function and is called only on a lookup miss; every deletion decrements exactly once iff the key was present (presence test on the same key); the drain loop at connection close decrements once per remaining entry; no other site touches the gauge. The wrappers run one Add(1) and one deferred Done per connection goroutine (wherever the Add sits; its position matters to C17 only) and the table close is deferred per connection (R-LOOP a)."
 	rulePairGauges(p, r)
 	ruleGoroutineGaugePaired(p, r)
+	// the insertion (and its Inc) happens only when the table reported a miss for that session id
+	sub := newResult("C08")
+	ruleSeq(p, sub)
+	if r.takeFrom(sub, "R-SEQ", "new-flow-only-on-miss") == 0 {
+		r.undecided("R-SEQ", "new-flow-only-on-miss", "-", "the lookup's miss clause was not produced")
+	}
 	ruleLoop(p, r, "a")
 	r.floor("R-LOOP", 1)
 	r.Trusted = append(r.Trusted, "prometheus Gauge.Inc/Dec are atomic and exact")
